@@ -5,6 +5,10 @@
 // after every label, and the canonical trace + ledger are returned in the line format of lean/MosnVerif/Drive/Downstream.lean.
 // Schedules are generated ONLINE: at every settle point the runner lists the labels that are feasible now (timer
 // deadlines are real), a Chooser picks one, and the labels actually driven are recorded — the model replays exactly those.
+// Streamed (partial) responses: label B<k> delivers the head of a streamed response (px.RespondStreaming: the client
+// stream stays open) with the downstream sender's hold gate armed — the worker forwards the head and then sits in the
+// sender, as it does in a streaming codec while the body is in flight; labels E<k> (body ended), X<k> (reset), DR and CC
+// end that wait (the gate is released after them), every other label is delivered while the worker keeps waiting.
 package dsx
 
 import (
@@ -191,6 +195,13 @@ func Run(c Cfg, choose Chooser, maxLabels int) Result {
 		trailers = map[string]string{"t": "1"}
 	}
 	started := false
+	streamed := map[int]bool{} // attempts that received the head of a streamed response
+	defer func() {
+		if ex != nil {
+			ex.Release()
+			ex.ForgetHold()
+		}
+	}()
 	// deadlines (relative to ex start); consumed ones are removed
 	ptConsumedFor := -1 // attempt index whose per-try deadline was consumed by a PT label
 	gtConsumed := false
@@ -225,6 +236,9 @@ func Run(c Cfg, choose Chooser, maxLabels int) Result {
 	}
 	for step := 0; step < maxLabels; step++ {
 		var opts []string
+		iterStart := time.Now()
+		plannedSleep := time.Duration(0)
+		armedHere := false
 		// the deadlines pending when the label is chosen (pt0 belongs to attempt ptIdx0)
 		var pt0 time.Duration
 		hasPT0, ptIdx0 := false, -1
@@ -258,13 +272,19 @@ func Run(c Cfg, choose Chooser, maxLabels int) Result {
 					if a.Failed != "" {
 						continue
 					}
-					if !c.OneWay && a.Live() { // only a stream still registered with its connection can be answered
+					if !c.OneWay && a.Live() && !streamed[a.Index] { // only a stream still registered with its connection can be answered
 						for _, code := range respCodes {
 							opts = append(opts, fmt.Sprintf("R%d:%d:00", a.Index, code))
 						}
 						opts = append(opts, fmt.Sprintf("R%d:200:10", a.Index), fmt.Sprintf("R%d:200:11", a.Index), fmt.Sprintf("R%d:503:01", a.Index))
+						// head of a streamed response (body / trailers in flight)
+						opts = append(opts, fmt.Sprintf("B%d:200:10", a.Index), fmt.Sprintf("B%d:200:01", a.Index), fmt.Sprintf("B%d:200:11", a.Index),
+							fmt.Sprintf("B%d:503:10", a.Index))
 					}
-					if !c.OneWay { // a one-way client stream is not registered with its connection: nothing resets it
+					if !c.OneWay && a.Live() && streamed[a.Index] && ex.Held() { // the streamed body ends
+						opts = append(opts, fmt.Sprintf("E%d", a.Index))
+					}
+					if !c.OneWay && (!streamed[a.Index] || !a.Live() || ex.Held()) { // a one-way client stream is not registered with its connection: nothing resets it
 						for _, r := range resetReasons {
 							opts = append(opts, fmt.Sprintf("X%d:%s", a.Index, r))
 						}
@@ -298,7 +318,7 @@ func Run(c Cfg, choose Chooser, maxLabels int) Result {
 		switch {
 		case lb == "S":
 			started = true
-			ex = f.Request(px.H(":path", "/a", ":authority", "svc"), body, trailers)
+			ex = f.RequestHold(px.H(":path", "/a", ":authority", "svc"), body, trailers)
 		case lb == "PFo":
 			f.PoolFail(types.Overflow)
 			continue
@@ -322,11 +342,38 @@ func Run(c Cfg, choose Chooser, maxLabels int) Result {
 					}
 				}
 			}
+			if r := d + timerMargin - ex.Elapsed(); r > 0 {
+				plannedSleep = r
+			}
 			ex.SleepUntil(d + timerMargin)
 		case lb == "DR":
 			ex.DownstreamReset()
+			ex.Release()
 		case lb == "CC":
 			f.ConnClose()
+			ex.Release()
+		case strings.HasPrefix(lb, "B"):
+			var k, code int
+			var dt string
+			fmt.Sscanf(strings.ReplaceAll(lb[1:], ":", " "), "%d %d %s", &k, &code, &dt)
+			a := ex.UpstreamAttempts()[k]
+			var rb []byte
+			var rt map[string]string
+			if dt[0] == '1' {
+				rb = []byte("resp")
+			}
+			if dt[1] == '1' {
+				rt = map[string]string{"rt": "1"}
+			}
+			streamed[k] = true
+			armedHere = true
+			ex.ArmHold()
+			a.RespondStreaming(code, nil, rb, rt)
+		case strings.HasPrefix(lb, "E"):
+			var k int
+			fmt.Sscan(lb[1:], &k)
+			ex.UpstreamAttempts()[k].EndBody()
+			ex.Release()
 		case strings.HasPrefix(lb, "TM"):
 			code := 0
 			fmt.Sscan(lb[2:], &code)
@@ -349,10 +396,24 @@ func Run(c Cfg, choose Chooser, maxLabels int) Result {
 			p := strings.SplitN(lb[1:], ":", 2)
 			var k int
 			fmt.Sscan(p[0], &k)
+			held := ex.Held() && streamed[k] && ex.UpstreamAttempts()[k].Live()
 			ex.UpstreamAttempts()[k].Reset(p[1])
+			if held {
+				ex.Release()
+			}
 		}
 		if ex != nil {
 			ex.WaitQuiescentFor(settleWin)
+			if armedHere && !ex.Held() { // the head was not forwarded (dropped, or swallowed by a retry): nothing waits
+				ex.Release()
+			}
+			// the timing grid assumes that an action and its settle end well within actBudget: a scheduler stall (loaded
+			// machine) that stretches one label beyond it may have let a timer fire at a point the recorded schedule does
+			// not show — such a run is discarded
+			if time.Since(iterStart)-plannedSleep > actBudget+settleWin {
+				res.Skewed = true
+				break
+			}
 			// a deadline that is not consumed must still be ahead, otherwise a timer may have fired inside the settle
 			now := ex.Elapsed()
 			pt, gt, hasPT, hasGT := deadlines()
